@@ -221,9 +221,56 @@ def excerpt_rules(fns, what, bad):
     return nob, len(text_paths)
 
 
+POSITION_FUNCTIONS = ('_map_index_to_line_and_column', '_get_line_and_column', '_extract_excerpt',
+                      '_finalize_parse_info', '_caret_at')
+# methods that have their own idea of what a line or a column is
+DISALLOWED_LINE_METHODS = {
+    'splitlines': 'str.splitlines() also breaks lines at \\r, \\v, \\f, \\x1c-\\x1e, \\x85, \\u2028 and \\u2029',
+    'expandtabs': 'str.expandtabs() changes the number of characters before a position',
+}
+
+
+def linebreak_vocabulary(fns, what, bad):
+    """The library's one notion of a line: only a line feed starts a new line and every other
+    character (tab, carriage return, form feed ...) advances the column by one.  The position code
+    may therefore single out no character but '\\n', and may not delegate to library routines with a
+    different notion.  -> number of findings reported"""
+    n = 0
+    for name in POSITION_FUNCTIONS:
+        fn = fns.get(name)
+        if fn is None:
+            continue
+        for node in ast.walk(fn):
+            if isinstance(node, ast.Call) and isinstance(node.func, ast.Attribute) \
+                    and node.func.attr in DISALLOWED_LINE_METHODS:
+                n += 1
+                bad('LINECOL-map', f'{what}: {name} calls .{node.func.attr}(): '
+                                   f'{DISALLOWED_LINE_METHODS[node.func.attr]}; line and column are defined by '
+                                   f'line feeds only (column = 1 + offset from the last line feed)')
+            if isinstance(node, ast.Compare):
+                for c in [node.left] + list(node.comparators):
+                    if isinstance(c, ast.Constant) and isinstance(c.value, (str, bytes)) and len(c.value) == 1 \
+                            and c.value not in ('\n', b'\n') and (c.value.isspace() if isinstance(c.value, str)
+                                                                 else c.value.isspace()):
+                        n += 1
+                        bad('LINECOL-map', f'{what}: {name} singles out the character {c.value!r}: only a line feed '
+                                           f'may influence line and column (every other character counts one column)')
+    return n
+
+
 def linecol_rules(fns, what, bad):
     """C09 b: the per-index tables: from (1, 0); a line break stores (line+1, 0), any other character
     stores (line, col+1); one entry per character in each table; the line table is returned first."""
+    nv = linebreak_vocabulary(fns, what, bad)
+    try:
+        return _linecol_shape_rules(fns, what, bad)
+    except AnalysisError:
+        if nv:
+            return nv           # the vocabulary rule already decided; the unknown shape is its consequence
+        raise
+
+
+def _linecol_shape_rules(fns, what, bad):
     fn = fns.get('_map_index_to_line_and_column')
     if fn is None:
         raise AnalysisError(f'{what}: anchor _map_index_to_line_and_column vanished')
